@@ -56,6 +56,12 @@ _t("IfExp", "IfExp", ["body", "test", "orelse"], "{0} if {1} else {2}")
 _t("Lambda", "Lambda", ["body"], "lambda: {0}")
 _t("Lambda[params]", "Lambda", ["body"], "lambda p, q=1: {0}")
 _t("Lambda[default]", "Lambda", ["default"], "lambda p={0}: p")
+# every marker directly after the `/` of positional-only parameters, and the bare `*`
+_t("Lambda[/,*a]", "Lambda", ["body"], "lambda p, /, *r: {0}")
+_t("Lambda[/,*,k]", "Lambda", ["body"], "lambda p, /, *, k: {0}")
+_t("Lambda[/,**k]", "Lambda", ["body"], "lambda p, /, **k: {0}")
+_t("Lambda[*,k=]", "Lambda", ["default"], "lambda *, k={0}: k")
+_t("Lambda[all]", "Lambda", ["body"], "lambda p, q=1, /, r=2, *s, k, l=3, **m: {0}")
 _t("List", "List", ["elt"], "[{0}]")
 _t("List[2]", "List", ["elt0", "elt1"], "[{0}, {1}]")
 _t("List[empty]", "List", [], "[]")
